@@ -111,7 +111,8 @@ def run_class(c):
             s.adjust(1000.0)
             s.update(DTS[0])
             s.allocate(0.0, "a")
-            s["a"].transact(5.0, price=10.5)
+            # any bespoke price: above / below mid, a fraction, zero, negative
+            s["a"].transact(float(c.get("q", 5.0)), price=float(c.get("custom", 10.5)))
             s.update(DTS[0])
             _ = s.value
         elif cls == "dup_child":
@@ -140,7 +141,9 @@ def class_cases():
         out.append(feat("hold_coupon", price=price, position_open=held))
     for f in (True, False):
         out.append(feat("dup_ticker", flag=f))
-        out.append(feat("custom_price", flag=f))
+        for cp in (10.5, 9.0, 0.25, 0.0, -1.0, 10.0):
+            for q in (5.0, -3.0):
+                out.append(feat("custom_price", flag=f, custom=cp, q=q))
         for how in ("strings", "nodes", "strats"):
             out.append(feat("dup_child", flag=f, how=how))
         for nz in (True, False):
